@@ -438,6 +438,29 @@ def oracle_component_placement(rng):
                     want_rows = 2 if not (sym and idx[0] != idx[1]) else 4
                     if len(rows) != want_rows:
                         return 'variable_map[%s]%s = %d is a column with %d nonzero rows (expected %d: the two bounds on that component)' % (M.name, idx, col, len(rows), want_rows)
+        # an array that numpy stacks from several Variables keeps the Python type Variable; every Variable with a component in it stays a Variable of the
+        # Problem (all_variables, variable_map, values after a solve), before and after a pickle round trip
+        for how in ('concatenate', 'hstack', 'stack'):
+            pa = cl.Variable(shape=(2,), name='c20mix_a_' + how)
+            pb = cl.Variable(shape=(2,), name='c20mix_b_' + how)
+            arr = {'concatenate': lambda: np.concatenate((pa, pb)), 'hstack': lambda: np.hstack((pa, pb)), 'stack': lambda: np.stack((pa, pb)).ravel()}[how]()
+            # the stacked array itself is the argument (arr >= 0), the shifts come from a second constraint on a plain Expression of pa only
+            prob = cl.Problem(cl.MIN, pa[0] + pa[1] + pb[0] + 2 * pb[1], [cl.PrimalProductCone(arr, [cl.Cone('+', 4)]), pa >= np.array([1.0, 2.0])])
+            for label, pr in (('the Problem', prob), ('the Problem after a pickle round trip', None)):
+                if pr is None:
+                    pr = pickle.loads(pickle.dumps(prob))
+                names = sorted(v.name for v in pr.all_variables)
+                if names != sorted([pa.name, pb.name]) or sorted(pr.variable_map) != names:
+                    return ('np.%s of two Variables as the argument of a product cone: %s has Variables %s and variable_map keys %s; both %s and %s have components in it'
+                            % (how, label, names, sorted(pr.variable_map), pa.name, pb.name))
+                st, val = pr.solve(verbose=False)
+                vals_ = {v.name: np.asarray(v.value, dtype=float).tolist() for v in pr.all_variables}
+                if st != 'solved' or abs(val - 3.0) > 1e-5 or not np.allclose(vals_.get(pa.name, [np.nan]), [1.0, 2.0], atol=1e-4) or not np.allclose(vals_.get(pb.name, [np.nan]), [0.0, 0.0], atol=1e-4):
+                    return 'np.%s of two Variables in a product cone: %s solves to (%s, %r) with values %s; expected 3 at (1, 2), (0, 0)' % (how, label, st, val, vals_)
+                for con_ in pr.constraints:
+                    for v_ in con_.variables():
+                        if any(sv.parent is None for sv in v_.scalar_variables()):
+                            return 'np.%s of two Variables in a product cone: in %s a component of %s has no parent Variable' % (how, label, v_.name)
     return None
 
 
